@@ -441,7 +441,17 @@ def run(rep, tier, seed, replay):
                        "python oracle props/c13.py (strict reading of the C13 statement) on implementation outputs"]))
     P = params()
     model = ltv.build_model("C13")
-    impl = ltv.build_harness("c13", ["c13.cc"])
+    # both drivers are linked right away (and once more if the shared library cache was pruned by a concurrent run
+    # between the two links: lib/ltv.py keeps only the three most recent trees)
+    def build_both():
+        return (ltv.build_harness("c13", ["c13.cc"]),
+                ltv.build_harness("c13d", ["c13d.cc", "common/session.cc"], libs=["-lcrypto"]))
+    try:
+        impl, impl_d = build_both()
+    except ltv.BuildError as e:
+        if "libltv.a" not in str(e):
+            raise
+        impl, impl_d = build_both()
     if replay:
         cases = [json.load(open(replay))["case"]]
         stats = {"replay": 1}
@@ -451,10 +461,18 @@ def run(rep, tier, seed, replay):
     didx = [i for i, c in enumerate(cases) if c.startswith("D ")]
     oidx = [i for i, c in enumerate(cases) if not c.startswith("D ")]
     io = [None] * len(cases)
-    for i, r in zip(oidx, ltv.run_sharded(impl, [cases[i] for i in oidx], timeout=900)):
-        io[i] = r
+    # the network-backed cases (real TrackerHttp / TrackerUdp: seconds each) are spread over all shards on their own
+    slow = [i for i in oidx if cases[i][:2] in ("H ", "U ")]
+    fast = [i for i in oidx if cases[i][:2] not in ("H ", "U ")]
+    import concurrent.futures as _cf
+    with _cf.ThreadPoolExecutor(2) as ex:
+        f_slow = ex.submit(ltv.run_sharded, impl, [cases[i] for i in slow], len(slow) or 1, timeout=900)
+        f_fast = ex.submit(ltv.run_sharded, impl, [cases[i] for i in fast], timeout=900)
+        for i, r in zip(slow, f_slow.result()):
+            io[i] = r
+        for i, r in zip(fast, f_fast.result()):
+            io[i] = r
     if didx:
-        impl_d = ltv.build_harness("c13d", ["c13d.cc", "common/session.cc"], libs=["-lcrypto"])
         for i, r in zip(didx, ltv.run_sharded(impl_d, [cases[i] for i in didx], timeout=900)):
             io[i] = r
     io = [r if r is not None else "MISSING" for r in io]
